@@ -7,7 +7,14 @@ NOTES = ("Runtime monitoring: every check builds the real library from /repo's w
 ENGINE_TEXT = {
     "model-history": "operation histories replayed against the real data structures and a plain Go model; every earlier value re-read after each step",
 }
+ENGINE_TEXT["gram-diff"] = "generated grammars built into real parsley parsers wrapped in transparent probe parsers; results judged against an independent reference semantics / online invariants"
 CHECKS = {
+ "C01": dict(engine="gram-diff", technique="runtime monitoring: probe parsers around memoized nonterminals + differential oracle against a reference least-fixpoint semantics and a structural tree validator",
+   text="Results returned by the real parsers (ends, trees, each tree validated structurally) are compared with an independent least-fixpoint reference on the seed corpus, seeded random stratified grammars, mutual-left-recursion-biased grammars and every grammar of a small scope. Held on the cases explored only.",
+   note="trusts harness/internal/refsem as the meaning of a grammar; unstratified grammars and budget-exceeding cases are not judged", design_ref="DESIGN.md section 4, C01"),
+ "C02": dict(engine="gram-diff", technique="runtime monitoring: online invariant asserted at a probe below every Memoize (active executions per (parser, position) <= remaining+2) + parent-process classification of fatal exits",
+   text="The activation bound is asserted online on every execution of every memoized parser over generated grammars incl. cyclic, nullable, hidden-left-recursive and unstratified ones; termination is claimed as 'returned within the logical budget'. The evidence reports the deepest activation per remaining length.",
+   note="termination is a bounded-progress restatement; budget hits are inconclusive", design_ref="DESIGN.md section 4, C02"),
  "C15": dict(engine="model-history", technique="runtime monitoring: model-based history checker re-reading every earlier value after each operation (random + small-scope exhaustive histories)",
    text="Every value ever produced in a history is re-read after every further operation and compared with a plain Go model; random histories plus every operation sequence of a small scope (domain {0,1,2}, depth 3/4). Holds on the histories explored, not beyond.",
    note="trusts the Go map/slice model; small-scope exhaustive only up to depth 3 (quick) / 4 (thorough)", design_ref="DESIGN.md section 4, C15"),
